@@ -379,10 +379,7 @@ func replay(path, out string) {
 				continue
 			}
 			seg := exp[v.Rroff[k]:v.Rroff[k+1]]
-			key := L.Mnemonic(a.Type)
-			if c := classify(a); c != "" {
-				key += ":" + c
-			}
+			key := keyOf(a)
 			if i%97 == 0 {
 				r.sum.Sample(map[string]interface{}{"g": v.G, "v": v.V, "key": key})
 			}
@@ -414,16 +411,9 @@ func replay(path, out string) {
 	r.finish()
 }
 
-// skipC01: records on which PackRR / UnpackRR are known not to be the wire format (C01 known finding
-// wire/..:AMTRELAY:dbit: the relay of an AMTRELAY record with the discovery bit is dropped).  C05 trusts the packer
-// through C01; where C01 says it cannot be trusted there is no record to speak of.  Counted, not exercised.
-func skipC01(a *wire.RR, r *run) bool {
-	if L.ClassOf(a) == "dbit" {
-		r.stat["skipped:AMTRELAY:dbit (C01 known finding)"]++
-		return true
-	}
-	return false
-}
+// skipC01: records on which PackRR / UnpackRR are known not to be the wire format would be skipped here (C05 trusts the
+// packer through C01).  None at present: the AMTRELAY discovery-bit defect was repaired in /repo (c2f3ab8).
+func skipC01(a *wire.RR, r *run) bool { return false }
 
 // registry compares the library's mnemonic registry with the specification's table (reported, never an oracle).
 func registry(sum *hx.Summary) {
@@ -494,6 +484,22 @@ func anySeq(v interface{}) []interface{} {
 	return s
 }
 
+// reservedTypeCode: the record holds type code 0 or 65535 in a type-valued field (bitmap, type covered).  The class is
+// about the code, not about the record type it sits in, so the finding key carries no type (keyOf).
+const reservedTypeCode = "reserved-type-code"
+
+// keyOf is the type + value-class part of a finding key.
+func keyOf(a *wire.RR) string {
+	c := classify(a)
+	switch c {
+	case "":
+		return L.Mnemonic(a.Type)
+	case reservedTypeCode:
+		return c
+	}
+	return L.Mnemonic(a.Type) + ":" + c
+}
+
 // classify names the field of the record whose value needs most care in text (finding keys): unprintable type codes
 // first, then lengths the text leaves implicit, then strings by the characters they hold, in layout order.
 func classify(a *wire.RR) string {
@@ -532,26 +538,20 @@ func classify(a *wire.RR) string {
 				put(6, e.N, strconv.Itoa(int(v.(float64))))
 			}
 			if e.N == "TypeCovered" {
-				switch int(v.(float64)) {
-				case 0:
-					put(1, e.N, "type0")
-				case 65535:
-					put(1, e.N, "type65535")
+				if t := int(v.(float64)); t == 0 || t == 65535 {
+					put(1, "", reservedTypeCode)
 				}
 			}
 		case "bitmap", "bitmap0":
 			for _, t := range anySeq(v) {
-				switch int(t.(float64)) {
-				case 0:
-					put(1, e.N, "type0")
-				case 65535:
-					put(2, e.N, "type65535")
+				if t := int(t.(float64)); t == 0 || t == 65535 {
+					put(1, "", reservedTypeCode)
 				}
 			}
 		case "u32":
 			if b := anyBytes(v); a.Type == 29 && len(b) == 4 && (e.N == "Latitude" || e.N == "Longitude") {
 				if (uint32(b[0])<<24|uint32(b[1])<<16|uint32(b[2])<<8|uint32(b[3]))%1000 != 0 {
-					put(7, e.N, "fractional-seconds")
+					put(7, "", "fractional-seconds")
 				}
 			}
 		case "octet":
@@ -674,6 +674,9 @@ func codes(path string) {
 				text += " " + hex.EncodeToString(v.Rdata.Bytes())
 			}
 			key := fmt.Sprintf("%s-%s:%s", v.K, f.cls, name)
+			if f.cls == "library-spelling" && v.K == "type" && (v.Code == 0 || v.Code == 65535) {
+				key = reservedTypeCode // the same defect as in bitmaps and type-covered fields
+			}
 			c := map[string]interface{}{"vec": v, "text": text}
 			mis := func(k, what string) {
 				failed[f.cls] = true
@@ -746,10 +749,7 @@ func record(out string, n int) {
 		if skipC01(a, r) {
 			continue
 		}
-		key := L.Mnemonic(a.Type)
-		if c := classify(a); c != "" {
-			key += ":" + c
-		}
+		key := keyOf(a)
 		rr, err := L.BuildRR(a)
 		if err != nil {
 			hx.Die("random record: %v", err)
